@@ -285,6 +285,27 @@ pub fn run(ctx: &Ctx) -> (Stats, Report) {
     st.merge(s);
     st.exhaustive_sections.push("conversions: all dates x {00:00:00, 00:00:01, 12:00:00, 23:59:59} x sub-second {0,1,499999,500000,999999}, each also as the injected current instant for OracleDate::now() and OracleDate::try_from(Time)".into());
     st.sample(1, || json!({"kind": "convert", "timestamp_us": (-1i64).to_string(), "floored": (-1_000_000i64).to_string()}));
+    // A2: every microsecond of a few seconds (early, just past 2^31 us into an hour, last second of
+    // the day) on dates before 1970, at the epoch and far in the future
+    {
+        let secs2 = [0i128, 12 * 3600 + 35 * 60 + 48, 20 * 3600 + 56 * 60 + 15, 86_399];
+        let days2 = [c.first as i128, -200, 0, c.last as i128];
+        let s = par_sweep(1_000_000, 4096, |range, st| {
+            for u in range {
+                for (k, sec) in secs2.iter().enumerate() {
+                    let ts = days2[(k + u as usize) % 4] * US_PER_DAY + sec * US_PER_SEC + u as i128;
+                    st.evaluations += 1;
+                    st.nontrivial_enum += 1;
+                    if let Err(m) = check_convert(ts) {
+                        st.fail(u, Case::new(P, "convert", vec![ts], vec![]), m);
+                        return;
+                    }
+                }
+            }
+        });
+        st.merge(s);
+    }
+    st.exhaustive_sections.push("conversions: all 10^6 microseconds of four seconds (00:00:00, 12:35:48, 20:56:15, 23:59:59) rotated over four dates".into());
     st.section("conversions", &mut mark);
 
     // B: every operation touching the type: whole-second invariant on pool cross products
